@@ -179,8 +179,8 @@ PROPS['C09'] = dict(
 
 PROPS['C08'] = dict(
     level='exploration',
-    rule='choice tape -> factorisation (PLU / LDL^T / LL^T), order n in 1..12 (thorough 1..32), matrix class: small integers, reals, rows/cols scaled by 2^+-k, near-singular rank-one + 2^-30 noise, '
-         'pivot exchange forced at the last step, Hilbert/Vandermonde-like, global scale 2^s (|s| <= 300), wide-exponent reals, strictly diagonally dominant integers (must succeed), and exactly singular classes '
+    rule='three builds of the library and executor: a_real = double, float and long double (A_SIZE_REAL = 8 / 4 / 16), unit roundoff u of that type in every bound. choice tape -> factorisation (PLU / LDL^T / LL^T), order n in 1..12 (thorough 1..32), occasionally 13..65 pattern-filled, matrix class: small integers, reals, rows/cols scaled by 2^+-k, near-singular rank-one + 2^-30 noise, '
+         'pivot exchange forced at the last step, Hilbert/Vandermonde-like, global scale 2^s (|s| <= 30 / 300 / 4800 for float / double / long double builds, the last reaching beyond the double range), wide-exponent reals, strictly diagonally dominant integers (must succeed), and exactly singular classes '
          'whose elimination is exact: zero column, bit-identical rows, zero row (PLU); integer unit-L * D * L^T with a zero in D (LDL^T); integer L*L^T with a zero diagonal entry or a pivot made negative (LL^T); '
          'symmetric inputs get their strict upper triangle poisoned in half of the cases (the code reads only the lower triangle). Oracle in long double: permutation + parity = sign, |L_ij| <= 1, positive Cholesky diagonal, '
          'componentwise |PA-LU| <= 4*gamma_n|L||U| (gamma_2n for LDL^T, gamma_{n+1} for LL^T, lower triangle), solve / inv / inv_ residuals |b-Ax| <= 4*gamma_{3n(+2)}*(|L||D||L^T|)|x|, det/lndet/sgndet against '
@@ -188,16 +188,18 @@ PROPS['C08'] = dict(
          'non-default symmetric class, or a singular class that was reported); distinct = hash of (kind, n, matrix entries)',
     assumptions=COMMON_ASSUME + ['entries are kept in an exponent window where no intermediate of the elimination over/underflows; cases whose factors still become non-finite are counted under excluded_by_construction',
                                  'singular matrices from real-valued constructions other than the exact classes are not required to fail',
-                                 'det is compared only while the product of pivots is representable (1e-290..1e300); lndet is always compared'],
-    units=lambda tier, seed: [Unit('factor', 'exec/C08.cc', ['a.c', 'math.c', 'linalg.c', 'linalg_plu.c', 'linalg_ldl.c', 'linalg_llt.c'],
-                                   exec_defs=['-DVP_MAXN=%d' % (32 if tier == 'thorough' else 12)], tape_len=6000 if tier == 'thorough' else 900)],
-    plan={'quick': dict(rc_procs=10, rc_cases=12000, fuzz_procs=6, fuzz_secs=25),
-          'thorough': dict(rc_procs=10, rc_cases=60000, fuzz_procs=6, fuzz_secs=300)},
-    tolerances={'safety_factor_c': 4, 'reconstruction': 'c*gamma_n|L||U| (PLU), c*gamma_2n|L||D||L^T| (LDL^T), c*gamma_{n+1}|L||L^T| (LL^T)',
+                                 'det is compared only while every prefix of the running product of pivots stays representable in a_real (float 1e-34..1e36, double 1e-290..1e300, long double 1e-4890..1e4900); lndet is always compared'],
+    units=lambda tier, seed: [Unit(nm, 'exec/C08.cc', ['a.c', 'math.c', 'linalg.c', 'linalg_plu.c', 'linalg_ldl.c', 'linalg_llt.c'], defs=config_defs(real),
+                                   exec_defs=['-DVP_MAXN=%d' % (32 if tier == 'thorough' else 12)], tape_len=6000 if tier == 'thorough' else 900,
+                                   config='a_real = %s (A_SIZE_REAL=%d), all A_HAVE_* on' % (ty, real))
+                              for nm, real, ty in (('factor', 8, 'double'), ('factor-f32', 4, 'float'), ('factor-f80', 16, 'long double'))],
+    plan={'quick': dict(rc_procs=5, rc_cases=12000, fuzz_procs=2, fuzz_secs=25),
+          'thorough': dict(rc_procs=5, rc_cases=60000, fuzz_procs=3, fuzz_secs=300)},
+    tolerances={'safety_factor_c': '4 (6 in the long double build, where the residual is evaluated in the same precision)', 'reconstruction': 'c*gamma_n|L||U| (PLU), c*gamma_2n|L||D||L^T| (LDL^T), c*gamma_{n+1}|L||L^T| (LL^T)',
                 'solve_inverse': 'c*gamma_{3n}(P^T|L||U|)|x| resp. c*gamma_{3n+2}(|L||D||L^T|)|x|', 'lndet': 'c*(n+2)*u*(sum|log d_i|+1)', 'det': 'c*gamma_{n+1}|det| (2n+2 for symmetric)'},
     technique='property-based testing with validity predicates (standard componentwise backward-error bounds evaluated in long double) over structured matrix classes; exactly singular classes built so the elimination is exact; rapidcheck tapes + libFuzzer under ASan',
     level_text='generated matrices per class against residual bounds from the standard error analysis with a fixed safety factor 4; sampling, not proof; errors below the bound are invisible',
-    level_note='trusts long double (64-bit mantissa) residual evaluation: its own error is 2^11 below the bound; orders <= 32',
+    level_note='trusts long double (64-bit mantissa) residual evaluation: its own error is 2^11 below the bound for double, 2^40 for float, and of the order of the unit of the bound for the long double build (safety factor raised to 6); orders <= 65',
 )
 
 PROPS['C17'] = dict(
